@@ -258,6 +258,21 @@ def execute_parallel_tasks(
                     task_dict=task_dict,
                     future_queue=future_queue,
                     cache_directory=cache_directory,
+                    resource_dict=dict(
+                        {"cores": cores},
+                        **{
+                            k: v
+                            for k, v in kwargs.items()
+                            if k
+                            in [
+                                "threads_per_core",
+                                "gpus_per_core",
+                                "cwd",
+                                "openmpi_oversubscribe",
+                                "slurm_cmd_args",
+                            ]
+                        },
+                    ),
                 )
 
 
@@ -653,6 +668,7 @@ def _execute_task_with_cache(
     task_dict: dict,
     future_queue: queue.Queue,
     cache_directory: str,
+    resource_dict: Optional[dict] = None,
 ):
     """
     Execute the task in the task_dict by communicating it via the interface using the cache in the cache directory.
@@ -663,6 +679,7 @@ def _execute_task_with_cache(
                           {"fn": callable, "args": (), "kwargs": {}, "resource_dict": {}}
         future_queue (Queue): Queue for receiving new tasks.
         cache_directory (str): The directory to store cache files.
+        resource_dict (dict): resources the call is executed with, they are part of the key of the cache entry
     """
     from executorlib.standalone.hdf import dump, get_output
 
@@ -670,7 +687,9 @@ def _execute_task_with_cache(
         fn=task_dict["fn"],
         fn_args=task_dict["args"],
         fn_kwargs=task_dict["kwargs"],
-        resource_dict=task_dict.get("resource_dict", {}),
+        resource_dict=(
+            task_dict.get("resource_dict", {}) if resource_dict is None else resource_dict
+        ),
     )
     os.makedirs(cache_directory, exist_ok=True)
     file_name = os.path.join(cache_directory, task_key + ".h5out")
